@@ -218,7 +218,12 @@ func (mb *mbox) createDir() error {
 
 // removeDir removes the mailbox, plus empty higher level directories
 func (mb *mbox) removeDir() error {
-	// remove mailbox dir, including index file
+	// Remove the index first: without it the mailbox reads as empty, even if removing the message
+	// files below is interrupted.
+	if err := os.Remove(mb.indexPath); err != nil && !os.IsNotExist(err) {
+		return err
+	}
+	// remove mailbox dir, including message files
 	if err := os.RemoveAll(mb.path); err != nil {
 		return err
 	}
